@@ -117,9 +117,15 @@ pub mod builder {
     //@   ret r
     //@   props C18
     //@   ens[get_write_mode.post] *r == self.mode()
+        /// oracle: can chrono render the configured custom timestamp format (F15)? (chrono's formatter is outside the verifier)
+        pub uninterp spec fn ts_format_check(&self) -> Result<(), FlexiLoggerError>;
+    //@ sig src/writers/file_log_writer/builder.rs impl FileLogWriterBuilder / fn check_timestamp_format
+    //@   ret r
+    //@   ens r == self.ts_format_check()
     //@ fn src/writers/file_log_writer/builder.rs impl FileLogWriterBuilder / fn try_build_state
     //@   ret r
-    //@   props C16,C18,C06
+    //@   props C16,C18,C06,C10
+    //@   ens[try_build_state.post.format_checked] r is Ok ==> self.ts_format_check() is Ok
     //@   ens[try_build_state.post.dir] r is Ok ==> fs_create_dir_all_result(effective_dir(self.dir())) is Ok
     //@       && fs_metadata_result(effective_dir(self.dir())) is Ok && metadata_is_dir(&fs_metadata_result(effective_dir(self.dir()))->Ok_0)
     //@   ens[try_build_state.post.config] r is Ok ==> self.transferred(&r->Ok_0)
